@@ -44,6 +44,15 @@ pub fn string_new() -> String {
     unsafe { String::from_utf8_unchecked(v) }
 }
 
+/// larger variant for the serialiser harnesses with full-width fields
+pub const CAP_BIG: usize = 256;
+
+pub fn string_new_big() -> String {
+    let layout = Layout::array::<u8>(CAP_BIG).unwrap();
+    let p = unsafe { alloc(layout) };
+    unsafe { String::from_utf8_unchecked(Vec::from_raw_parts(p, 0, CAP_BIG)) }
+}
+
 pub fn string_push(s: &mut String, ch: char) {
     assert!((ch as u32) < 0x80, "verif: String::push stub is ASCII only");
     let v = unsafe { s.as_mut_vec() };
